@@ -3693,9 +3693,6 @@ pub fn suite_remap(ctx: &mut Ctx) {
             if !ctx.take() {
                 continue;
             }
-            if w > 300 && ctx.tier == Tier::Quick && (wi + ki) % 2 == 1 {
-                continue;
-            }
             let (sep, kind) = if (wi + ki) % 3 == 0 { (" ", Kind::Words) } else { ("\n", Kind::Lines) };
             let tok: String = std::iter::repeat('t').take(w - 1).collect();
             let block: String = (0..k).map(|_| format!("{}{}", tok, sep)).collect();
